@@ -86,6 +86,20 @@ pub broadcast axiom fn axiom_to_string_i32(t: &i32, res: String)
 pub broadcast axiom fn axiom_to_string_vehicle_idx(t: &VehicleIdx, res: String)
     ensures #[trigger] vstd::string::to_string_from_display_ensures::<VehicleIdx>(t, res) <==> res@ == vid_text(*t);
 
+// A-text: `String + &str` (std: appends) has no precondition and yields the concatenation.  (vstd's
+// `AddSpec` is uninterpreted for foreign types; the call is reached through rule R10 `//@add-ufcs`:
+// `A + &B` -> `std::ops::Add::add(A, &B)`, because Verus cannot resolve the operator form for `impl Add<&T>`.)
+pub broadcast axiom fn axiom_string_add_req(a: String, b: &str)
+    ensures #[trigger] <String as vstd::std_specs::ops::AddSpec<&str>>::add_req(a, b);
+pub broadcast axiom fn axiom_string_add_obeys()
+    ensures #[trigger] <String as vstd::std_specs::ops::AddSpec<&str>>::obeys_add_spec();
+pub broadcast axiom fn axiom_string_add_spec(a: String, b: &str)
+    ensures (#[trigger] <String as vstd::std_specs::ops::AddSpec<&str>>::add_spec(a, b))@ == a@ + b@;
+pub broadcast group group_text {
+    axiom_string_add_req, axiom_string_add_obeys, axiom_string_add_spec,
+    axiom_to_string_string, axiom_to_string_i32, axiom_to_string_vehicle_idx,
+}
+
 //@item @rapid_time/src/date_time.rs DateTime::as_iso : trusted
 //@retname r
 //@sig
@@ -188,6 +202,18 @@ pub open spec fn legs_schedulable(net: &Network, s: Seq<NodeIdx>) -> bool {
         ==> tp_secs(net.sp_node(s[k + 1]).sp_start_time()->Point_0) >= net.min_dur(s[k], s[k + 1])->Length_0.seconds
 }
 
+/// what vehicle_to_json needs from the schedule for vehicle v (established by C10 for every real vehicle)
+pub open spec fn vehicle_ok(s: &Schedule, v: VehicleIdx) -> bool {
+    let nodes = s.tours@[v].nodes@;
+    // the vehicle is a real vehicle of the schedule with a well-formed real tour (C10 clause 1)
+    &&& s.tours@.contains_key(v)
+    &&& real_tour(&s.network, &s.tours@[v])
+    // A-depots: both depot nodes of the tour belong to depots of the network's depot table
+    &&& s.network.depots@.contains_key(sp_depot_idx(&s.network, nodes[0]))
+    &&& s.network.depots@.contains_key(sp_depot_idx(&s.network, nodes[nodes.len() - 1]))
+    &&& legs_schedulable(&s.network, nodes)
+}
+
 /// C03 (vehicle perspective), part 1: id of the vehicle, ids of the depots of its first / last node
 pub open spec fn vehicle_json_ids(net: &Network, v: VehicleIdx, nodes: Seq<NodeIdx>, j: &JsonVehicle) -> bool {
     &&& j.id@ == vid_text(v)
@@ -250,4 +276,65 @@ pub proof fn lemma_change_legs_bounds(net: &Network, s: Seq<NodeIdx>, m: int)
     decreases m,
 {
     if m > 0 { lemma_change_legs_bounds(net, s, m - 1); }
+}
+
+// =====================================================================================================
+// fleet_to_json (C03 vehicle perspective for a whole type; C05 / A-json: cycles emitted verbatim)
+// =====================================================================================================
+/// the vehicles of a type in the order `Schedule::vehicles_iter` yields them
+pub open spec fn type_vehicles(s: &Schedule, vt: VehicleTypeIdx) -> Seq<VehicleIdx> { s.vehicle_ids_grouped_and_sorted@[vt]@ }
+/// the rotation cycles of a type in the order `Transition::cycles_iter` yields them
+pub open spec fn type_cycles(s: &Schedule, vt: VehicleTypeIdx) -> Seq<TransitionCycle> { s.next_period_transitions@[vt].cycles@ }
+/// the id text of a vehicle type
+pub open spec fn type_id(net: &Network, vt: VehicleTypeIdx) -> Seq<char> { net.vehicle_types.vehicle_types@[vt].id@ }
+/// what fleet_to_json needs from the schedule for type vt
+pub open spec fn type_ok(s: &Schedule, vt: VehicleTypeIdx) -> bool {
+    &&& s.vehicle_ids_grouped_and_sorted@.contains_key(vt)
+    &&& s.next_period_transitions@.contains_key(vt)
+    &&& s.network.vehicle_types.vehicle_types@.contains_key(vt)
+    &&& forall|i: int| 0 <= i < type_vehicles(s, vt).len() ==> vehicle_ok(s, #[trigger] type_vehicles(s, vt)[i])
+}
+/// `out` is the list of the ids of the vehicles `c`, in order
+pub open spec fn ids_listed(c: Seq<VehicleIdx>, out: Seq<String>) -> bool {
+    &&& out.len() == c.len()
+    &&& forall|j: int| 0 <= j < c.len() ==> (#[trigger] out[j])@ == vid_text(c[j])
+}
+/// number of dead-head trips of the first k vehicles
+pub open spec fn dht_total(vehicles: Seq<JsonVehicle>, k: int) -> int
+    decreases k,
+{
+    if k <= 0 { 0 } else { dht_total(vehicles, k - 1) + vehicles[k - 1].dead_head_trips@.len() }
+}
+/// the fleet-wide list `after` is `before` followed, vehicle by vehicle, by a copy of each of its trips
+pub open spec fn fleet_dht_grown(vs: Seq<VehicleIdx>, vehicles: Seq<JsonVehicle>, before: Seq<JsonFleetDeadHeadTripWithFormation>,
+    after: Seq<JsonFleetDeadHeadTripWithFormation>) -> bool {
+    &&& after.len() == before.len() + dht_total(vehicles, vehicles.len() as int)
+    &&& forall|i: int| 0 <= i < before.len() ==> #[trigger] after[i] == before[i]
+    &&& forall|i: int, j: int| 0 <= i < vehicles.len() && 0 <= j < vehicles[i].dead_head_trips@.len()
+            ==> is_dht_copy(vs[i], #[trigger] &vehicles[i].dead_head_trips@[j], &after[before.len() + dht_total(vehicles, i) + j])
+}
+/// C03 (vehicle perspective): `out` lists the vehicles `vs` in order, each with its own itinerary
+pub open spec fn vehicles_listed(s: &Schedule, vs: Seq<VehicleIdx>, out: Seq<JsonVehicle>) -> bool {
+    &&& out.len() == vs.len()
+    &&& forall|i: int| 0 <= i < vs.len() ==> is_vehicle_json(&s.network, vs[i], s.tours@[vs[i]].nodes@, #[trigger] &out[i])
+}
+/// C05 / A-json: `out` lists every cycle (including empty and one-vehicle cycles), in order, as the ids of its vehicles in order
+pub open spec fn cycles_listed(cs: Seq<TransitionCycle>, out: Seq<Vec<String>>) -> bool {
+    &&& out.len() == cs.len()
+    &&& forall|i: int| 0 <= i < cs.len() ==> ids_listed(cs[i].cycle@, (#[trigger] out[i])@)
+}
+pub proof fn lemma_dht_total_prefix(a: Seq<JsonVehicle>, b: Seq<JsonVehicle>, k: int)
+    requires 0 <= k <= a.len(), k <= b.len(), forall|i: int| 0 <= i < k ==> a[i] == b[i],
+    ensures dht_total(a, k) == dht_total(b, k), dht_total(a, k) >= 0,
+    decreases k,
+{
+    if k > 0 { lemma_dht_total_prefix(a, b, k - 1); }
+}
+pub proof fn lemma_dht_total_mono(a: Seq<JsonVehicle>, i: int, k: int)
+    requires 0 <= i <= k,
+    ensures 0 <= dht_total(a, i) <= dht_total(a, k),
+    decreases k,
+{
+    if i < k { lemma_dht_total_mono(a, i, k - 1); }
+    else if k > 0 { lemma_dht_total_mono(a, i - 1, k - 1); }
 }
